@@ -319,6 +319,12 @@ func runHist(ci interface{}, s *vkit.Stats) error {
 					}
 				}
 			}
+			if len(op.I) > 3 && vkit.Pick(op.I[3], 2) == 0 {
+				// the builder, and the handles obtained from it, stay in use after its Reset
+				s.Class("builder-and-handles-reused-after-reset")
+				fp = append(fp, "Rk")
+				break
+			}
 			bs[bi] = mocker.Create()
 			for k := range kept {
 				if k.b == bi {
